@@ -887,6 +887,11 @@ func (fb *fnBuilder) visit(n ast.Node) {
 		fb.visit(x.Value)
 		return
 	case *ast.Ident:
+		// a local alias of a guarded map / slice used as a whole (ranged over, passed on, len):
+		// a read of the guarded field's storage with the locks held HERE
+		if fb.aliasAccess(x, "R", x.Pos()) {
+			return
+		}
 		// a library function used as a value escapes (its callers are not all known)
 		if fn, ok := fb.info.Uses[x].(*types.Func); ok {
 			if callee := fb.p.byObj[fn.Origin().FullName()]; callee != nil {
